@@ -9,6 +9,9 @@ CHECKS = {
  "C01": dict(cat="exploration", ref="6/C01", tech="differential execution: Color BASIC reference model vs reference BASIC09 interpreter running the text emitted by the real convert(); counterfactual re-runs for diagnosis",
    text="runtime monitor over generated executions: every expression case is converted by the real tool and its output executed; values, branches, loop ranges, subscripts and ON targets are compared per valuation. Bounded-exhaustive over operator shapes (<=2 quick, <=3 thorough), literal spellings and built-in functions, random beyond. Held on what was run, not a proof.",
    note="trusted base: the two reference models written from the manuals (DESIGN.md section 3); values restricted to a domain where both float formats agree"),
+ "C07": dict(cat="exploration", ref="6/C07", tech="post-condition monitor on every successful convert(): reference BASIC09 statement parser + block-structure validator + leak scan; counterfactual (de-hazarded) re-run for diagnosis",
+   text="every accepted program of a grammar-directed workload over all statement kinds, all examples and ten option sets is parsed by an independent BASIC09 parser; a failure is a violation unless the de-hazarded variant of the same program parses, in which case it is attributed to the listed known mechanism",
+   note="trusted base: vlib/b09ref/parser.py (DESIGN.md Appendix E), deliberately tolerant where real BASIC09 behaviour is uncertain"),
 }
 
 def main():
